@@ -1,5 +1,5 @@
 import YaegiVerif.Model.RunId
-/- What interp/interp.go, interp/program.go and interp/run.go say today, as read by hand.
+/- What interp/interp.go, interp/program.go, interp/run.go and interp/src.go say today, as read by hand.
    The extractor re-emits the same record into Generated/C09.lean (and Generated/C10.lean) on every run;
    `Props.C09.runidfacts_tie` / `Props.C10.runidfacts_tie` compare them. -/
 namespace YaegiVerif.Expected.C09
@@ -7,26 +7,35 @@ open YaegiVerif.RunId
 
 def facts : RunIdFacts :=
   { callId := .parent,          -- run.go call: newFrame(f, len(def.types), f.runid())
-    wrapperId := .parent,       -- run.go genFunctionWrapper: newFrame(f, len(def.types), f.runid())
-    closureId := .parent,       -- run.go getFunc: fr := f.clone(); newFrame(fr, len(n.types), fr.runid())
+    wrapperId := .root,         -- run.go genFunctionWrapper: newCallFrame(f, len(def.types))              (4a41b28, F10)
+    wrapperDone := .root,       --   interp.go newCallFrame: root := anc.root; f := newFrame(anc, length, root.runid());
+    closureId := .root,         -- run.go getFunc: fr := f.clone(); newCallFrame(fr, len(n.types))         (4a41b28, F10)
+    closureDone := .root,       --   f.done = root.done                                                    (1578873, F09-2)
     cloneKeepsId := true,       -- interp.go clone: id: f.runid()
-    cloneKeepsDone := true,     --                  done: f.done   (F09-2)
-    entryId := .interp,         -- run.go (*Interpreter).run: newFrame(cf, len(n.types), interp.runid())
+    cloneKeepsDone := true,     --                  done: f.done   (no longer looked at by newCallFrame)
+    entryId := .parent,         -- run.go (*Interpreter).run: newFrame(cf, len(n.types), cf.runid())       (c403bf5, F09)
     entryRootShared := true,    --   if cf == nil { f = interp.frame }
     guardPlain := true,         -- run.go runCfg: for exec := n.exec; exec != nil && f.runid() == n.interp.runid(); {
     guardDebug := true,         --               for m, exec := n, n.exec; f.runid() == n.interp.runid(); {
     stopBumps := true,          -- interp.go stop: atomic.AddUint64(&interp.id, 1)
     stopCloses := true,         --                 close(interp.done)
+    stopRenews := true,         --                 interp.done = make(chan struct{})                       (ba001d8)
     execRefresh := true,        -- program.go Execute: interp.frame.setrunid(interp.runid())
-    execChecksCancel := false,  -- program.go Execute walks its whole run list whatever happened (F09)
+    execRefreshAtReturn := true, --                    defer func() { interp.frame.setrunid(interp.runid()) }()   (4a41b28)
+    execChecksCancel := false,  -- program.go Execute walks its whole run list whatever happened (the entries are stale)
+    importRefresh := true,      -- src.go importSrc: interp.frame.setrunid(interp.runid()) before the entry points (2667a11)
     watcherStops := true,       -- case <-ctx.Done(): interp.stop()
     watcherCtxErr := true,      --                    return reflect.Value{}, ctx.Err()
-    ctxSetsCancelChan := true,  -- interp.cancelChan = !interp.opt.fastChan; interp.done = make(chan struct{})
-    recv := { doneCase := true, byFlag := true, doneEnds := true },    -- variant chosen when generated (F26)
+    ctxFreshDone := true,       -- interp.done = make(chan struct{}) in the three ...WithContext entry points
+    ctxSetsCancelChan := false, -- (they no longer touch cancelChan)
+    newSetsCancelChan := true,  -- interp.go New: i.cancelChan = !i.opt.fastChan                            (cc65000, F26)
+    recv := { doneCase := true, byFlag := true, doneEnds := true },    -- variant chosen when generated: by a flag that is now constant
     recv2 := { doneCase := true, byFlag := true, doneEnds := true },
     send := { doneCase := true, byFlag := true, doneEnds := true },
     range := { doneCase := true, byFlag := false, doneEnds := true },
-    select := { doneCase := true, byFlag := false, doneEnds := true } }
+    select := { doneCase := true, byFlag := false, doneEnds := true },
+    recvStoresAfterCheck := true,   -- chosen, v, _ := reflect.Select(…); if chosen == 0 { return nil }; getFrame(f, l).data[i] = v  (50c4f88, cc65000)
+    closureRestoresSlot := false }  -- getFunc's wrapper no longer writes getFrame(f, l).data[i] back       (d26dd9e, F09-1)
 
 /-- program.go Execute: root code and global variables run on the root frame, every init (and main,
     appended to p.init by Compile) in a new frame -/
@@ -35,27 +44,32 @@ def execRuns : List String := ["p.root, nil", "n, nil", "loop p.init: n, interp.
 /-- fingerprints (extract/common FuncHash) of the small functions Model/RunId.lean was transcribed from -/
 def sourceHashes : List (String × String) :=
   [("newFrame", "da1db819d5067f56"),
+   ("newCallFrame", "43aa5e7f13021a5b"),
    ("frame.runid", "b7fc6ada9f6f42f5"),
    ("frame.setrunid", "77219c18ca24e88d"),
    ("frame.clone", "ccd71f62c6588b0a"),
-   ("Interpreter.stop", "eef620e47532de64"),
+   ("Interpreter.stop", "02f62084f0b94724"),                 -- ba001d8: lock, close, fresh channel, unlock
    ("Interpreter.runid", "7284bb1c1cc48ab0"),
-   ("Interpreter.EvalWithContext", "ad7b3d0744ee53d6"),
-   ("Interpreter.EvalPathWithContext", "456ce9153c2e8f52"),
-   ("Interpreter.ExecuteWithContext", "bb4020fdfa140ba6"),
-   ("Interpreter.run", "c686d275d40de84f"),
+   ("Interpreter.EvalWithContext", "dc254e0454ea5c26"),      -- cc65000: the cancelChan assignment is gone
+   ("Interpreter.EvalPathWithContext", "8ab1ac4be2fe2922"),  -- cc65000
+   ("Interpreter.ExecuteWithContext", "015dc2f92b36711b"),   -- cc65000
+   ("Interpreter.run", "313a9867b7b4d0f2"),                  -- c403bf5: cf.runid()
    ("rangeChan", "948ef0190bcb7722")]
 
-/-- the facts a repaired interpreter would have: `Execute` abandons its run list after a cancellation, the
-    channel generators do not depend on when they were generated, and a closure's frame does not keep the done
-    channel of the evaluation that made it. The specification column (`g=`) of the
-    driver is the machine run with these facts; `Props.C09.ideal_*` prove the full statement for them. -/
-def ideal : RunIdFacts :=
+/-- the record the extractor produces on the tree before the eight repairs of round 2 (32d4f06): the subject of the
+    old-fact witnesses (F09, F26, F09-2 in Props/C09.lean, F10 in Props/C10.lean) -/
+def oldFacts : RunIdFacts :=
   { facts with
-    execChecksCancel := true,
-    cloneKeepsDone := false,
-    recv := { doneCase := true, byFlag := false, doneEnds := true },
-    recv2 := { doneCase := true, byFlag := false, doneEnds := true },
-    send := { doneCase := true, byFlag := false, doneEnds := true } }
+    wrapperId := .parent, wrapperDone := .inherit, closureId := .parent, closureDone := .inherit,
+    entryId := .interp, stopRenews := false, execRefreshAtReturn := false, importRefresh := false,
+    ctxSetsCancelChan := true, newSetsCancelChan := false,
+    recvStoresAfterCheck := false, closureRestoresSlot := true }
+
+/-- what the property demands of the calls of function values: a frame made by an operation of a frame of the
+    cancelled evaluation belongs to that evaluation (it takes that frame's id), whoever made the function value.
+    The specification column (`g=`) of the driver is the machine run with these facts; `Props.C09.ideal_full`
+    proves the full statement for them. -/
+def ideal : RunIdFacts :=
+  { facts with wrapperId := .parent, closureId := .parent }
 
 end YaegiVerif.Expected.C09
